@@ -261,7 +261,7 @@ func scenarios(tier string) []sched.Scenario {
 			pre := 1
 			sh := 4
 			if tier == "thorough" {
-				pre, sh = 2, 16
+				pre, sh = 2, 64 // many shards: a worker keeps the goroutines of dead bubbles until its scenario ends
 			} else if !quickDev[op.Name] {
 				continue
 			}
